@@ -213,6 +213,8 @@ pub enum Lay {
     RevLast,
     /// every axis stored in reverse (all strides negative; contiguous in memory)
     Neg,
+    /// a single stored element broadcast to the shape (all strides 0); only for arrays whose elements are all equal
+    Bcast,
 }
 
 impl Lay {
@@ -225,6 +227,7 @@ impl Lay {
             "w" => Lay::Window,
             "revl" => Lay::RevLast,
             "neg" => Lay::Neg,
+            "bc" => Lay::Bcast,
             _ if s.starts_with('s') => {
                 Lay::Strided(s[1..].parse().map_err(|_| format!("bad layout {s}"))?)
             }
@@ -246,6 +249,14 @@ pub struct Stored<T> {
 impl<T: Scalar> Stored<T> {
     /// `flat` in logical (row-major) order; storage outside the view holds `fill`
     pub fn new(lay: Lay, shape: &[usize], flat: Vec<T>, fill: T) -> Result<Self, String> {
+        if lay == Lay::Bcast && !flat.is_empty() && flat.iter().all(|v| v.show() == flat[0].show()) {
+            return Ok(Stored {
+                lay,
+                shape: shape.to_vec(),
+                base: ArrayD::from_elem(IxDyn(&vec![1; shape.len()]), flat[0]),
+            });
+        }
+        let lay = if lay == Lay::Bcast { Lay::C } else { lay };
         let logical = ArrayD::from_shape_vec(IxDyn(shape), flat)
             .map_err(|e| format!("contents do not match shape: {e}"))?;
         let mut s = Self::filled(lay, shape, fill);
@@ -257,12 +268,13 @@ impl<T: Scalar> Stored<T> {
     pub fn filled(lay: Lay, shape: &[usize], fill: T) -> Self {
         let r = shape.len();
         let lay = match lay {
+            Lay::Bcast => Lay::C,
             Lay::Strided(_) | Lay::Rev | Lay::RevLast | Lay::Neg if r == 0 => Lay::C,
             Lay::Perm if r < 2 => Lay::C,
             l => l,
         };
         let base = match lay {
-            Lay::C | Lay::Rev | Lay::RevLast | Lay::Neg => ArrayD::from_elem(IxDyn(shape), fill),
+            Lay::C | Lay::Rev | Lay::RevLast | Lay::Neg | Lay::Bcast => ArrayD::from_elem(IxDyn(shape), fill),
             Lay::F => ArrayD::from_elem(IxDyn(shape).f(), fill),
             Lay::Strided(k) => {
                 let mut s = shape.to_vec();
@@ -288,9 +300,12 @@ impl<T: Scalar> Stored<T> {
 
     pub fn view(&self) -> ArrayViewD<'_, T> {
         let r = self.shape.len();
+        if self.lay == Lay::Bcast {
+            return self.base.broadcast(IxDyn(&self.shape)).expect("broadcast of a one-element array");
+        }
         let mut v = self.base.view();
         match self.lay {
-            Lay::C | Lay::F => {}
+            Lay::C | Lay::F | Lay::Bcast => {}
             Lay::Strided(k) => v.slice_axis_inplace(Axis(0), Slice::new(0, None, k.max(1) as isize)),
             Lay::Rev => v.invert_axis(Axis(0)),
             Lay::RevLast => v.invert_axis(Axis(r - 1)),
@@ -314,7 +329,7 @@ impl<T: Scalar> Stored<T> {
         let r = self.shape.len();
         let mut v = self.base.view_mut();
         match self.lay {
-            Lay::C | Lay::F => {}
+            Lay::C | Lay::F | Lay::Bcast => {}
             Lay::Strided(k) => v.slice_axis_inplace(Axis(0), Slice::new(0, None, k.max(1) as isize)),
             Lay::Rev => v.invert_axis(Axis(0)),
             Lay::RevLast => v.invert_axis(Axis(r - 1)),
